@@ -33,3 +33,31 @@ Qed.
 (* a name with a trailing slash is ignored after the count, whatever it claims *)
 Lemma name_is_dir_slash : forall n, name_is_dir (n ++ [47%N]) = true.
 Proof. intros. unfold name_is_dir. apply endswith_app. exists n. reflexivity. Qed.
+
+(* ---------------------------------------------------------------- names and sessions (round 4) *)
+From S2T Require Import C11.ModelSession.
+
+Definition rename (g : str -> str) (r : raw_entry) : raw_entry :=
+  {| r_name := g (r_name r); r_file_size := r_file_size r; r_compress_size := r_compress_size r;
+     r_external_attr := r_external_attr r; r_create_system := r_create_system r |}.
+
+(* names matter only through the trailing slash: duplicates, empty names, any renaming that keeps
+   the slash status leave the verdict unchanged -- every record is looked at *)
+Lemma names_irrelevant : forall L g rs,
+  (forall n, name_is_dir (g n) = name_is_dir n) ->
+  validate_raw L (map (rename g) rs) = validate_raw L rs.
+Proof.
+  intros L g rs H. unfold validate_raw. rewrite map_map. f_equal.
+  apply map_ext. intro r. unfold entry_of. f_equal. exact (H (r_name r)).
+Qed.
+
+Lemma session_history_independent : forall pre c post,
+  nth_error (run_session (pre ++ c :: post)) (List.length pre) = Some (run_call c).
+Proof.
+  intros. unfold run_session. rewrite map_app. cbn [map].
+  rewrite nth_error_app2 by (rewrite map_length; apply le_n).
+  rewrite map_length, PeanoNat.Nat.sub_diag. reflexivity.
+Qed.
+
+Lemma session_same_as_fresh : forall pre c, run_session (pre ++ [c]) = run_session pre ++ run_session [c].
+Proof. intros. unfold run_session. apply map_app. Qed.
